@@ -17,7 +17,9 @@ def beBytes16 (x : Nat) : Array UInt8 := (Array.range 16).map fun i => UInt8.ofN
 def hashLsb (x : Nat) : Bool := ((Blake3.hash (leBytes16 x)).getD 31 0) % 2 == 1
 /-- `hash128`: the first 16 output bytes, little endian -/
 def hash128 (x : Nat) : Nat := ((Blake3.hash (leBytes16 x)).extract 0 16).foldr (fun b acc => acc * 256 + b.toNat) 0
-def commit (x : Nat) : List UInt8 := (Blake3.hash (beBytes16 x)).toList
+/-- `commit(&hi_with_id(H_i, i))`: the check value followed by the 16-bit id of the committing party (fix "bind the leaky AND check
+    commitment to the committing party"; before it the committed value was `H_i` alone, see `Thm/C04mirror.lean`) -/
+def commit (x party : Nat) : List UInt8 := (Blake3.hash (beBytes16 x ++ #[UInt8.ofNat (party / 256 % 256), UInt8.ofNat (party % 256)])).toList
 
 structure In where
   n     : Nat
@@ -82,7 +84,7 @@ def run (i : In) : Out :=
     ⟨zb p ll, fun j => OnlineMsgs.vOfNat (if j == p then 0 else zMac p j ll), fun j => OnlineMsgs.vOfNat (if j == p then 0 else zKey p j ll)⟩
   let H (p ll : Nat) : Nat := (Hi n Δv Hh (xF ll) (yF ll) (zF ll) p).toNat
   let comm := parties.flatMap fun p => (others p).map fun j =>
-    (p, j, encU64 lp ++ (List.range lp).flatMap fun ll => commit (H p ll))
+    (p, j, encU64 lp ++ (List.range lp).flatMap fun ll => commit (H p ll) p)
   let hash := parties.flatMap fun p => (others p).map fun j =>
     (p, j, encVec encU128 ((List.range lp).map (H p)))
   let z := parties.map fun p => (p, (List.range lp).map fun ll =>
